@@ -27,28 +27,28 @@ P = {
          "Equal (config, entropy) cases are generated on the main thread twice, on 16 concurrent threads in shuffled orders with random yields, in >= 8 separately spawned processes (fresh ASLR/hash seeds, different TZ/cwd) and through the CLI batch mode under RAYON_NUM_THREADS 1/2/3/16; full bytes are compared. Half of the cases are recipe-steered pickles (containers with several members of different kinds under typed opcodes, aliases, memo round trips), where a decision that iterates a hash-ordered or address-keyed container would show. Thorough adds a ThreadSanitizer build of the threaded workload.",
          "5.C07"),
  "C08": ("history replay against a fresh generator (Rust API and Python PickleMutator)",
-         "Every history of length <= 3 over {generate, generate_from_arbitrary(x0|x1), reset} and sampled longer ones, on configurations of all protocols; every generation call is compared byte-for-byte with a fresh generator given only that call; histories also contain writes to the public configuration fields between calls (the fresh generator gets the same writes) and inputs followed by an extension or truncation of themselves; the Python PickleMutator.mutate path is exercised against the built extension.",
+         "Every history of length <= 3 over {generate, generate_from_arbitrary(x0|x1), reset} and sampled longer ones, on configurations of all protocols; every generation call is compared byte-for-byte with a fresh generator given only that call; histories also contain writes to the public configuration fields between calls (the fresh generator gets the same writes) and inputs followed by an extension or truncation of themselves; unseeded calls must differ from each other; the Python PickleMutator.mutate path is exercised against the built extension.",
          "5.C08"),
  "C09": ("catch_unwind + Err/empty monitor + hook step bound + per-call CPU work bound + child-process exit status over exhaustive short inputs, periodic inputs and hostile configs",
          "All 65 793 byte strings of length <= 2 x 6 protocols x a configuration set (exhaustive sub-space), every two-byte pattern repeated to 1000 bytes at 400 opcodes, the full matrix with NaN/out-of-range rates, and child-process cases (20k+ opcodes, TUPLE1 chains on a 2 MiB stack, 8 KiB inputs, hostile buffer sizes), and the deep-state block (each of MARK, DUP, pushes, memo writers, APPEND, TUPLE.. chosen greedily for 4 200 and 20 500 steps per protocol, opcode cycles, and the same inputs cut to 8 KiB on a 2 MiB thread in child processes). Generators are constructed five ways (three builder-call orders on Generator::new, two from Generator::default() with the protocol written through the public state field). 'Never loops forever' is decided as a bound on emitted opcodes and on the CPU time consumed by the generating thread (>= 60x the slowest generation observed); a wall-clock watchdog firing is inconclusive. Thorough adds ASan, valgrind memcheck and a debug-build run.",
          "5.C09"),
  "C10": ("O1 opcode histogram by decoded position under the four flag combinations (library, CLI flags, action-wrapper switches), with positive control",
-         "EXT*/buffer opcodes are looked for at decoded opcode positions (never raw bytes) in outputs of the full matrix incl. unsafe for all four flag combinations; the run is inconclusive unless the opcodes do occur with the flag on.",
+         "EXT*/buffer opcodes are looked for at decoded opcode positions (never raw bytes) in outputs of the full matrix incl. unsafe for all four flag combinations, in CLI batches and in wrapper runs (documented truthy spellings, twenty spellings of 'off', switches not exported at all); the run is inconclusive unless the opcodes do occur with the flag on.",
          "5.C10"),
  "C11": ("hook event log (T, choices, per-step byte ranges, body/tail boundary) cross-checked with O1 opcode counts; CLI --min/--max-opcodes outputs counted too",
-         "T, the number of choices/emissions, one-opcode-per-body-step, tail length <= 2T+1 and the total bound are checked per execution over an 18-point (min,max) grid incl. equal/inverted/zero, all mutator subsets safe and unsafe, both entropy modes, three builder-call orders, plus the deep-state block (tail bound with thousands of pending MARKs).",
+         "T, the number of choices/emissions, one-opcode-per-body-step, tail length <= 2T+1 and the total bound are checked per execution over an 18-point (min,max) grid incl. equal/inverted/zero, all mutator subsets safe and unsafe, both entropy modes, three builder-call orders, plus the deep-state block (tail bound with thousands of pending MARKs); the output must grow with every emission; the wrapper's min_opcodes / max_opcodes inputs are driven over the same grid.",
          "5.C11"),
  "C12": ("union of decoded opcode sets over a fixed seed block (existential witnesses per (protocol, opcode))",
-         "Default-settings generations for seeds [0,N) per protocol (plus flags-on block for EXT*/buffer) must together contain every opcode of the CPython table with proto <= P, and framed and unframed outputs for P >= 4; evidence lists the witness seed and count per pair. A single-threaded ascending-protocol prelude and a CLI layer (flag combinations in single and batch mode must keep the enabled opcodes alive) are included, as are CLI runs with --seed alone (protocol derived by the tool: every protocol, and 4/5 both framed and unframed, must come up).",
+         "Default-settings generations for seeds [0,N) per protocol (plus flags-on block for EXT*/buffer) must together contain every opcode of the CPython table with proto <= P, and framed and unframed outputs for P >= 4; evidence lists the witness seed and count per pair. A single-threaded ascending-protocol prelude and a CLI layer (flag combinations in single and batch mode must keep the enabled opcodes alive) are included, as are CLI runs with --seed alone (protocol derived by the tool: every protocol, and 4/5 both framed and unframed, must come up), a census over the fuzzer-bytes entry point (random, recipe-steered and greedy-steered inputs) and one on generators retargeted from a lower protocol through state.version.",
          "5.C12"),
  "C13": ("byte comparison of CLI / batch / action wrapper / Python bindings against the library via an independent option mapping",
          "The built binary, scripts/action-run.sh and the built _native extension are driven over an option matrix; every produced file / returned value is compared with library bytes for the independently mapped configuration; batch file sets, exit statuses and injected write faults (before the first write, mid-batch, exactly 256 failures), overwriting of older longer files, odd cwd / locale / environment are checked.",
          "5.C13"),
  "C14": ("per-thread counting allocator: live heap before Generator::new vs after drop, reproducible x3; long reuse histories; equal live heap after 1/4/10 passes over a fixed cycle; mallinfo2 probe of the Python layer",
-         "Exact live-bytes/blocks deltas for every case of the full matrix under three lifecycles, alias-heavy and recipe-steered pickles (memo aliases, NaN containers), the deep-state block, long generate/reset histories, and 14 500 generations whose configuration values (ranges incl. inverted, seeds, rates, buffer sizes) are new every time (live heap read after 500/2 500/6 500/14 500 with no generator alive), and 4 000 generations WITHOUT a seed; coverage shows how many analysed outputs contained aliasing insertions / identity cycles. Thorough adds LeakSanitizer and valgrind memcheck as second opinions.",
+         "Exact live-bytes/blocks deltas for every case of the full matrix under three lifecycles, alias-heavy and recipe-steered pickles (memo aliases, NaN containers), the deep-state block, long generate/reset histories, and 14 500 generations whose configuration values (ranges incl. inverted, seeds, rates, buffer sizes) are new every time (live heap read after 500/2 500/6 500/14 500 with no generator alive), 4 000 generations WITHOUT a seed and 40 000 (thorough 400 000) default generations with the opt-in opcodes on (these single-thread growth blocks run first, in a pristine process; four live-heap readings must not grow); coverage shows how many analysed outputs contained aliasing insertions / identity cycles. Thorough adds LeakSanitizer and valgrind memcheck as second opinions.",
          "5.C14"),
  "C15": ("hook Draw/Mutated/Rewrite events at rate 0 and 1 + direct calls of every mutator on hostile entropy",
-         "In-generation: at rate 0 no Mutated/Rewrite event may occur, at rate 1 every Draw must be followed by a Mutated from the first applicable mutator (all 128 subsets, permuted lists, both entropy modes incl. hostile doubles; a quarter of the cases create the mutator objects with the opposite unsafe flag from the generator's own). Direct: every mutator method on harness-built sources (NaN/inf/negative/huge leading doubles, exhausted input).",
+         "In-generation: at rate 0 no Mutated/Rewrite event may occur, at rate 1 every Draw must be followed by a Mutated from the first applicable mutator (all 128 subsets, permuted lists, both entropy modes incl. hostile doubles; a quarter of the cases create the mutator objects with the opposite unsafe flag from the generator's own; pickles of 3 000-6 000 opcodes included). Direct: every mutator method on harness-built sources (NaN/inf/negative/huge leading doubles, exhausted input).",
          "5.C15"),
  "C16": ("contract predicates on direct mutator calls over boundary-exhaustive value grids and real emission snapshots",
          "Every Mutator method is called over i32/i64 boundaries (exhaustive) plus samples, strings/bytes of 0..64 items incl. multi-byte, memo indices incl. 0 and usize::MAX, both entropy sources incl. exhausted input, every value of the first byte a mutation draws, and for 16 boundary memo indices all 65 536 values of the two draw bytes; TypeConfusion on snapshots cut from real generations and synthetic deltas for all 256 opcode bytes, also with a buffer tail that an earlier mutator has already replaced (stale snapshot).",
